@@ -64,7 +64,19 @@ class Log:
 
 class RecConsumer(_InMemoryConsumer):
     async def consume(self):
+        if getattr(self.broker, "fail_consume_queue", None) == self.queue_name:
+            self.broker.log.add("consumer_failure", queue=self.queue_name)
+            raise RuntimeError("injected consumer failure")
         res = await super().consume()
+        if getattr(self.broker, "fail_consume_queue", None) == self.queue_name:
+            # the failure was requested while this consume() was polling: give the message back first
+            self.broker.queues[self.queue_name].processing.discard
+            self.broker.log.add("consumer_failure", queue=self.queue_name)
+            for m in list(self._queue.processing):
+                if m.key.id_ == res[0].id_:
+                    self._queue.processing.remove(m)
+                    self._queue.simple.put_nowait(m)
+            raise RuntimeError("injected consumer failure")
         self.broker.log.add("consume", id=res[0].id_, topic=res[0].topic, queue=res[0].queue, params=res[2],
                             payload=res[1], cat=self.category.value, consumer=id(self))
         return res
